@@ -38,7 +38,10 @@ from .values import (
 class Loop:
     """Invariant / variant of the n-th loop (source order) of a function."""
 
-    def __init__(self, invariants=(), decreases=None, vars=None, header=None, modifies=()):
+    def __init__(self, invariants=(), decreases=None, vars=None, header=None, modifies=(), unroll=False):
+        # unroll: execute the loop iteration by iteration, branching on symbolic conditions; accepted only
+        # when every path leaves the loop through a *concrete* guard within 64 iterations (complete, not bounded)
+        self.unroll = unroll
         self.modifies = list(modifies)  # heap objects (local names / name.field) the body may mutate
         self.invariants = list(invariants)
         self.decreases = decreases
@@ -435,6 +438,64 @@ def _sb_char_at(ex, st, args, kwargs):
     yield st, SV("bool", z3.Implies(z3.And(S == whole, z3.Length(C) == 1), z3.SubString(S, z3.Length(A), 1) == C))
 
 
+def _sb_leading_zeros(ex, st, args, kwargs):
+    """leading_zeros(d, n): d is a numeral of exactly n <= 9 ASCII digits  =>  with r = d.lstrip('0'):
+    nat(d) == nat(r) (0 for empty r) and nat(d) < 10**len(r)  — i.e. j leading zeros bound the value by 10**(n-j)."""
+    d, n = args
+    if is_sym(n) or not (1 <= n <= 9):
+        raise Unsupported("leading_zeros needs a literal width 1..9")
+    t = bm.sstr(d)
+    r = bm.lstrip_term(t, "0")
+    bound = z3.IntVal(1)
+    for k in range(1, n + 1):
+        bound = z3.If(z3.Length(r) == k, z3.IntVal(10 ** k), bound)
+    if z3.is_app(t) and t.decl().name() == "py_pad" and z3.is_int_value(t.arg(1)) and t.arg(1).as_long() == n:
+        # d is format(x, '0nd') itself: state the bound on x directly (no regex / str.to_int atoms for the solver)
+        x = t.arg(0)
+        yield st, SV("bool", z3.Implies(z3.And(x >= 0, x < 10 ** n),
+                                        z3.And(x < bound, z3.Length(r) <= n, z3.Length(r) >= 0, z3.Implies(z3.Length(r) == n, r == t))))
+        return
+    yield st, SV("bool", z3.Implies(z3.And(z3.InRe(t, bm.RE_DIGITS), z3.Length(t) == n),
+                                    z3.And(z3.StrToInt(t) < bound, z3.Length(r) <= n, z3.Length(r) >= 0,
+                                           z3.Implies(z3.Length(r) == n, r == t))))
+
+
+def _sb_digit_chars(ex, st, args, kwargs):
+    """digit_chars(d, n): a numeral of exactly n <= 9 ASCII digits  =>  each of its n characters is in '0'..'9'
+    and the numeral is the concatenation of those characters."""
+    d, n = args
+    if is_sym(n) or not (1 <= n <= 9):
+        raise Unsupported("digit_chars needs a literal width 1..9")
+    t = bm.sstr(d)
+    cs = [z3.SubString(t, i, 1) for i in range(n)]
+    facts = [z3.InRe(c, bm.RE_DIGIT) for c in cs] + [z3.Length(c) == 1 for c in cs]
+    facts.append(t == (z3.Concat(*cs) if n > 1 else cs[0]))
+    yield st, SV("bool", z3.Implies(z3.And(z3.InRe(t, bm.RE_DIGITS), z3.Length(t) == n), z3.And(facts)))
+
+
+def _sb_chars_at(ex, st, args, kwargs):
+    """chars_at(s, a, tok, n, b): s == a + tok + b with len(tok) == n (literal)  =>  s[len(a) + i] is tok[i], i < n."""
+    s, a, tok, n, b = args
+    if is_sym(n) or not (1 <= n <= 12):
+        raise Unsupported("chars_at needs a literal width 1..12")
+    S, A, T = bm.sstr(s), bm.sstr(a), bm.sstr(tok)
+    whole = bm.sstr(bm.str_concat([a, tok, b]))
+    facts = [z3.SubString(S, z3.Length(A) + i, 1) == z3.SubString(T, i, 1) for i in range(n)]
+    yield st, SV("bool", z3.Implies(z3.And(S == whole, z3.Length(T) == n), z3.And(facts)))
+
+
+def _sb_digits_only(ex, st, args, kwargs):
+    """digits_only(d, ch): a numeral of ASCII digits does not contain the (non-digit) character ch."""
+    d, ch = args
+    if is_sym(ch) or len(ch) != 1 or ch.isdigit():
+        raise Unsupported("digits_only needs a literal non-digit character")
+    t = bm.sstr(d)
+    c = z3.StringVal(ch)
+    yield st, SV("bool", z3.Implies(z3.InRe(t, bm.RE_DIGITS),
+                                    z3.And(z3.Not(z3.Contains(t, c)), z3.IndexOf(t, c, 0) == -1, z3.LastIndexOf(t, c) == -1,
+                                           z3.Not(z3.PrefixOf(c, t)), z3.SubString(t, 0, 1) != c)))
+
+
 def _sb_head_of(ex, st, args, kwargs):
     """head_of(a, rest): a is non-empty  =>  (a + rest)[0] is a[0]."""
     a, rest = args
@@ -586,7 +647,7 @@ def _sb_py_int_strip(ex, st, args, kwargs):
     yield st, (SV("str", bm.strip_term(bm.sstr(s), "int")) if is_sym(s) else s.strip(" \t\n\x0b\x0c\r"))
 
 
-SPEC_BUILTINS = {"head_of": _sb_head_of, "py_int": _sb_py_int, "py_int_ok": _sb_py_int_ok, "nat_shift": _sb_nat_shift, "char_at": _sb_char_at, "int_of_digits": _sb_int_of_digits, "substr_at": _sb_substr_at, "strip_core": _sb_strip_core, "cut_at": _sb_cut_at, "excludes": _sb_excludes, "int_padded": _sb_int_padded, "py_int_strip": _sb_py_int_strip, "py_repr": _sb_py_repr, "loops_exhausted": _sb_loops_exhausted, "call_kwarg": _sb_call_kwarg, "some": _sb_some, "index_at": _sb_index_at, "strip_blank": _sb_strip_blank, "pos_of": _sb_pos_of, "call_arg": _sb_call_arg, "unmodified": _sb_unmodified, "uf": _sb_uf, "called": _sb_called, "py_isalpha": _sb_py_isalpha, "py_isdigit": _sb_py_isdigit, "int_of_signed": _sb_int_of_signed, "strip_padded": _sb_strip_padded, "strip_unique": _sb_strip_unique, "py_strip": _sb_py_strip, "pad": _sb_pad, "matches": _sb_matches, "nat": _sb_nat, "key_at": _sb_key_at, "val_at": _sb_val_at,
+SPEC_BUILTINS = {"chars_at": _sb_chars_at, "digit_chars": _sb_digit_chars, "leading_zeros": _sb_leading_zeros, "digits_only": _sb_digits_only, "head_of": _sb_head_of, "py_int": _sb_py_int, "py_int_ok": _sb_py_int_ok, "nat_shift": _sb_nat_shift, "char_at": _sb_char_at, "int_of_digits": _sb_int_of_digits, "substr_at": _sb_substr_at, "strip_core": _sb_strip_core, "cut_at": _sb_cut_at, "excludes": _sb_excludes, "int_padded": _sb_int_padded, "py_int_strip": _sb_py_int_strip, "py_repr": _sb_py_repr, "loops_exhausted": _sb_loops_exhausted, "call_kwarg": _sb_call_kwarg, "some": _sb_some, "index_at": _sb_index_at, "strip_blank": _sb_strip_blank, "pos_of": _sb_pos_of, "call_arg": _sb_call_arg, "unmodified": _sb_unmodified, "uf": _sb_uf, "called": _sb_called, "py_isalpha": _sb_py_isalpha, "py_isdigit": _sb_py_isdigit, "int_of_signed": _sb_int_of_signed, "strip_padded": _sb_strip_padded, "strip_unique": _sb_strip_unique, "py_strip": _sb_py_strip, "pad": _sb_pad, "matches": _sb_matches, "nat": _sb_nat, "key_at": _sb_key_at, "val_at": _sb_val_at,
                  "same_dict": _sb_same_dict}
 
 
@@ -924,7 +985,7 @@ def _havoc(ex, st, names, attrs, spec: Loop):
 
 
 def _check_invs(ex, st, spec: Loop, kind, fname, ordinal, extra_env=None):
-    env = dict(st.fr.env)
+    env = {**getattr(ex, "cur_env", {}), **st.fr.env}
     env.update(extra_env or {})
     for i, inv in enumerate(spec.invariants):
         t = eval_spec(ex, st, inv, env, what=f"loop{ordinal}.inv{i}")
@@ -932,7 +993,7 @@ def _check_invs(ex, st, spec: Loop, kind, fname, ordinal, extra_env=None):
 
 
 def _assume_invs(ex, st, spec: Loop, extra_env=None):
-    env = dict(st.fr.env)
+    env = {**getattr(ex, "cur_env", {}), **st.fr.env}
     env.update(extra_env or {})
     for inv in spec.invariants:
         st.assume(eval_spec(ex, st, inv, env))
@@ -1043,6 +1104,9 @@ def run_while(ex: Exec, node: ast.While, st: State):
         return
     if spec.header is not None and spec.header != ast.unparse(node.test):
         raise SourceError(f"{fname}: loop {ordinal} header changed: {ast.unparse(node.test)!r}")
+    if spec.unroll:
+        yield from _unroll_while(ex, node, st, 0, symbolic=True)
+        return
     _check_invs(ex, st, spec, "init", fname, ordinal)
     names, attrs = assigned_names(node.body)
     _havoc(ex, st, names, attrs, spec)
@@ -1051,7 +1115,7 @@ def run_while(ex: Exec, node: ast.While, st: State):
     before = _heap_snapshot(st)
     v0 = None
     if spec.decreases:
-        v0 = eval_term(ex, st, spec.decreases, st.fr.env)
+        v0 = eval_term(ex, st, spec.decreases, {**getattr(ex, "cur_env", {}), **st.fr.env})
     for st1, c in ex.ev(node.test, st):
         if isinstance(c, Exc):
             yield st1, ("raise", c.exc)
@@ -1065,7 +1129,7 @@ def run_while(ex: Exec, node: ast.While, st: State):
                 if out[0] in ("normal", "continue"):
                     _check_invs(ex, st3, spec, "preserve", fname, ordinal)
                     if v0 is not None:
-                        v1 = eval_term(ex, st3, spec.decreases, st3.fr.env)
+                        v1 = eval_term(ex, st3, spec.decreases, {**getattr(ex, "cur_env", {}), **st3.fr.env})
                         ex.oblige(st3, f"{fname}.loop{ordinal}.variant", "loop-variant",
                                   z3.And(lift(v0, "int") >= 0, lift(v1, "int") < lift(v0, "int")),
                                   info={"clause": spec.decreases})
@@ -1075,7 +1139,7 @@ def run_while(ex: Exec, node: ast.While, st: State):
                     yield st3, out
 
 
-def _unroll_while(ex, node, st, depth):
+def _unroll_while(ex, node, st, depth, symbolic=False):
     if depth > 64:
         raise Unsupported("while loop without invariant does not terminate concretely within 64 iterations")
     for st1, c in ex.ev(node.test, st):
@@ -1084,17 +1148,22 @@ def _unroll_while(ex, node, st, depth):
             continue
         t = ex.truthy(st1, c)
         if isinstance(t, SV):
-            raise Unsupported(f"while loop with symbolic condition needs an invariant (line {node.lineno})")
-        if not t:
-            yield st1, ("normal", None)
-            continue
-        for st2, out in ex.run_block(node.body, st1):
-            if out[0] in ("normal", "continue"):
-                yield from _unroll_while(ex, node, st2, depth + 1)
-            elif out[0] == "break":
-                yield st2, ("normal", None)
-            else:
-                yield st2, out
+            if not symbolic:
+                raise Unsupported(f"while loop with symbolic condition needs an invariant (line {node.lineno})")
+            outcomes = list(ex.branch(st1, t))
+        else:
+            outcomes = [(st1, bool(t))]
+        for st1b, b in outcomes:
+            if not b:
+                yield from ex.run_block(node.orelse, st1b) if node.orelse else [(st1b, ("normal", None))]
+                continue
+            for st2, out in ex.run_block(node.body, st1b):
+                if out[0] in ("normal", "continue"):
+                    yield from _unroll_while(ex, node, st2, depth + 1, symbolic)
+                elif out[0] == "break":
+                    yield st2, ("normal", None)
+                else:
+                    yield st2, out
 
 
 def run_for(ex: Exec, node: ast.For, st: State):
@@ -1448,6 +1517,11 @@ def verify_function(db: ContractDB, c: Contract, case=None) -> FunctionResult:
                 elif kind != "return":
                     val = None
                 _check_ensures(ex, st1, c, val, env)
+        if c.ensures and not any(o.kind == "ensures" for o in ex.obligations) and c.returns != "noreturn" \
+                and not any(n == "never-returns" for n, _ in c.ensures):
+            # vacuity guard: a contract with post-conditions must have at least one returning path
+            ex.obligations.append(Obligation(f"{c.qualname}.has-a-returning-path", "vacuity", [], z3.BoolVal(False),
+                                             info={"clause": "some path of the function returns normally under the pre-condition"}))
         res.obligations = ex.obligations
         res.inlined = ex.inlined
         res.assumed = ex.assumed_calls
@@ -1468,7 +1542,43 @@ def _post_env(st, env, result):
     return e
 
 
+def _check_frame(ex, st, c: Contract, env):
+    """Frame obligation: every field of a parameter object that the body assigned and that
+    ``modifies`` does not list must end up with its entry value (callers only see the contract and
+    keep their facts about everything outside the frame)."""
+    if st.old is None:
+        return
+    old_heap = st.old[0]
+    declared = set(c.modifies)
+    for name, v in env.items():
+        if not isinstance(v, Ref) or name in declared:
+            continue
+        o_new, o_old = st.heap.get(v.addr), old_heap.get(v.addr)
+        if isinstance(o_new, Obj) and isinstance(o_old, Obj):
+            for f in o_new.fields:
+                if f not in o_old.fields or f"{name}.{f}" in declared:
+                    continue
+                x, y = o_new.fields[f], o_old.fields[f]
+                if _same_val(x, y):
+                    continue
+                if isinstance(x, (SV, Opaque)) and isinstance(y, (SV, Opaque)) and x.t.sort() == y.t.sort():
+                    t = x.t == y.t
+                else:
+                    t = z3.BoolVal(False)
+                ex.oblige(st, f"{c.qualname}.frame[{name}.{f}]", "frame", t,
+                          info={"clause": f"{name}.{f} is not in 'modifies' and keeps its entry value"})
+        elif isinstance(o_new, SDict) and isinstance(o_old, SDict):
+            pairs = list(zip(o_new.terms(), o_old.terms()))
+            if not all(x.eq(y) for x, y in pairs):
+                ex.oblige(st, f"{c.qualname}.frame[{name}]", "frame", z3.And([x == y for x, y in pairs]),
+                          info={"clause": f"the dict {name} is not in 'modifies' and keeps its entry content"})
+        elif o_old is not None and type(o_new) is not type(o_old):
+            ex.oblige(st, f"{c.qualname}.frame[{name}]", "frame", z3.BoolVal(False),
+                      info={"clause": f"{name} is not in 'modifies' and keeps its entry content"})
+
+
 def _check_ensures(ex, st, c: Contract, result, env):
+    _check_frame(ex, st, c, env)
     e = _post_env(st, env, result)
     for name, clause in c.ensures:
         t = eval_spec(ex, st, clause, e, what=f"{c.key}.{name}")
